@@ -38,6 +38,14 @@ Theorem C16_sort_rejects_incomparable : forall l r, Forall wf l -> filter_sort l
   (Forall (fun v => is_none v = false) l -> ForallOrdPairs all_cmp_wf l).
 Proof. exact sort_rejects_incomparable. Qed.
 
+(* what the neighbour check does NOT refuse (finding key sort:undefined-key-behind-none): an
+   `undefined` element together with a none and a regular element, e.g. [1, none, undefined] —
+   while [1, undefined] is refused.  `undefined` elements only arise through the Rust API. *)
+Theorem C16_sort_rejects_incomparable_refuted_for_undefined_behind_none :
+  exists l r, Forall wf l /\ filter_sort l None = ROk r /\
+    exists x y, In x l /\ In y l /\ is_none x = false /\ is_none y = false /\ cmpb x y = false.
+Proof. exact sort_undefined_behind_none_witness. Qed.
+
 Theorem C16_comparability_is_convex : forall a b c, wf a -> wf b -> wf c ->
   vle a b -> vle b c -> cmpb a b = true -> cmpb b c = true -> cmpb a c = true.
 Proof. intros a b c Wa Wb Wc. exact (vpcmp_convex a Wa b c Wb Wc). Qed.
